@@ -325,7 +325,7 @@ func init() {
 
 // ---------------------------------------------------------------- scenario
 
-var c10dealFaults = []string{"honest", "bad-share", "bad-commit", "wrong-index", "t-zero", "t-one", "t-n+1", "wrong-recipient", "forged-sig", "cipher-flip", "dh-tampered", "replayed", "missing-share", "garbage-plaintext", "other-session", "other-poly-same-sid"}
+var c10dealFaults = []string{"honest", "bad-share", "bad-commit", "wrong-index", "t-zero", "t-one", "t-n+1", "wrong-recipient", "forged-sig", "cipher-flip", "dh-tampered", "replayed", "missing-share", "garbage-plaintext", "other-session", "other-poly-same-sid", "other-group", "extended-commit"}
 var c10respBehav = []string{"as-is", "absent", "flip", "forged-key", "wrong-sid", "duplicate", "equivocate", "out-of-range-index"}
 var c10justKinds = []string{"correct", "wrong-share", "other-index", "other-poly", "none", "unsolicited-correct", "unsolicited-wrong", "wrong-then-correct", "correct-then-wrong", "other-index-then-correct"}
 
@@ -562,7 +562,7 @@ func c10run(r *mon.R, s *c10scn, scnIdx int) {
 		switch f {
 		case "bad-commit":
 			commitClass[i] = "altered"
-		case "other-session", "other-poly-same-sid":
+		case "other-session", "other-poly-same-sid", "other-group", "extended-commit":
 			commitClass[i] = "other-polynomial"
 		default:
 			commitClass[i] = "dealer"
@@ -684,6 +684,34 @@ func c10run(r *mon.R, s *c10scn, scnIdx int) {
 			d2 := v.cloneDeal(suite, dealer2.plaintext(i))
 			copy(v.dealSid(d2), sid)
 			enc, e = dealer.sealStruct(i, d2)
+		case "other-group":
+			// the same dealer key runs another sharing for a verifier group of the same size in which only ONE OTHER member
+			// differs; the deal it made there for this verifier (same index, same key) is delivered here
+			pubsB := append([]kyber.Point(nil), pubs...)
+			pubsB[(i+1)%n] = suite.Point().Mul(suite.Scalar().Pick(rng.Stream()), nil)
+			d3, e3 := v.newDealer(suite, dlong, suite.Scalar().Pick(rng.Stream()), pubsB, uint32(t))
+			if e3 != nil {
+				panic(e3)
+			}
+			enc, e = d3.honestEnc(i)
+		case "extended-commit":
+			// a share of p + c*x^t together with the honest commitments followed by c*G (threshold field unchanged)
+			mutated(func(d any) {
+				if dd, ok := d.(*vssp.Deal); ok {
+					c := suite.Scalar().Pick(rng.Stream())
+					x := suite.Scalar().SetInt64(int64(dd.SecShare.I) + 1)
+					xt := suite.Scalar().One()
+					for k := 0; k < t; k++ {
+						xt = suite.Scalar().Mul(xt, x)
+					}
+					dd.SecShare.V = suite.Scalar().Add(dd.SecShare.V, suite.Scalar().Mul(c, xt))
+					dd.Commitments = append(dd.Commitments, suite.Point().Mul(c, nil))
+					return
+				}
+				cm := v.dealCommit(d) // Rabin: no such variant, alter one commitment instead
+				k := rng.IntN(len(cm))
+				cm[k] = suite.Point().Add(cm[k], suite.Point().Base())
+			})
 		default:
 			panic("unknown fault " + f)
 		}
@@ -702,7 +730,7 @@ func c10run(r *mon.R, s *c10scn, scnIdx int) {
 			_, ap := v.respInfo(resp)
 			codeResp[i] = resp
 			codeApproved[i] = ap
-			if ap && !goodDeal[i] && f != "other-session" && f != "other-poly-same-sid" {
+			if ap && !goodDeal[i] && f != "other-session" && f != "other-poly-same-sid" && f != "extended-commit" {
 				viol("ProcessEncryptedDeal/approved-bad-deal/"+f, "verifier approved a deal the harness built to be invalid ("+f+")", map[string]any{"verifier": i})
 			}
 			if !ap && goodDeal[i] {
@@ -1064,7 +1092,7 @@ func c10run(r *mon.R, s *c10scn, scnIdx int) {
 // c10allSameSession: no verifier was handed material of another session (their responses carry another sid and are legitimately rejected).
 func c10allSameSession(s *c10scn) bool {
 	for _, f := range s.faults {
-		if f == "other-session" || f == "bad-commit" || f == "other-poly-same-sid" {
+		if f == "other-session" || f == "bad-commit" || f == "other-poly-same-sid" || f == "other-group" || f == "extended-commit" {
 			return false
 		}
 	}
